@@ -386,17 +386,112 @@ Definition chat_decode (t : chat_template) (s : str) : res str :=
   | None => RErr 23
   end.
 
+(** * the misspellings file from its BYTES: [serde_json::from_reader::<HashMap<String, Vec<String>>>] — strict UTF-8, a json
+    object whose values are arrays of strings (typed: anything else is an error, nothing is ignored), then only
+    whitespace; a key given twice keeps its LAST list ([HashMap::insert]).  [None] = the [expect] of the constructor panics. *)
+Local Open Scope N_scope.
+Fixpoint strs_seq (fuel : nat) (first : bool) (s : str) : option (list str * str) :=
+  match fuel with
+  | O => None
+  | S f =>
+    match skip_ws s with
+    | [] => None
+    | c :: r =>
+      if c =? 93 then Some ([], r)
+      else
+        let elem (s1 : str) :=
+          match skip_ws s1 with
+          | c1 :: _ => if c1 =? 93 then None
+                       else match typed_string s1 with
+                            | Some (x, s2) => match strs_seq f false s2 with
+                                              | Some (l, s3) => Some (x :: l, s3)
+                                              | None => None
+                                              end
+                            | None => None
+                            end
+          | [] => None
+          end in
+        if first then elem (c :: r)
+        else if c =? 44 then elem r
+        else None
+    end
+  end.
+Definition typed_strs (s : str) : option (list str * str) :=
+  match skip_ws s with
+  | c :: r => if c =? 91 then strs_seq (S (length r)) true r else None
+  | [] => None
+  end.
+
+Fixpoint miss_put (k : str) (v : list str) (m : miss) : miss :=
+  match m with
+  | [] => [(k, v)]
+  | (k', v') :: r => if nlist_eqb k k' then (k, v) :: r else (k', v') :: miss_put k v r
+  end.
+
+Fixpoint missp_map (fuel : nat) (first : bool) (s : str) (acc : miss) : option (miss * str) :=
+  match fuel with
+  | O => None
+  | S f =>
+    match skip_ws s with
+    | [] => None
+    | c :: rest =>
+      if c =? 125 then Some (acc, rest)
+      else
+        let member (s1 : str) :=
+          match skip_ws s1 with
+          | q :: s2 =>
+            if q =? 34 then
+              match pstr s2 with
+              | None => None
+              | Some (k, s3) =>
+                match skip_ws s3 with
+                | col :: s4 => if col =? 58 then
+                                 match typed_strs s4 with
+                                 | Some (v, s5) => missp_map f false s5 (miss_put k v acc)
+                                 | None => None
+                                 end
+                               else None
+                | [] => None
+                end
+              end
+            else None
+          | [] => None
+          end in
+        if first then member (c :: rest)
+        else if c =? 44 then member rest
+        else None
+    end
+  end.
+
+Definition missp_of_text (s : str) : option miss :=
+  match skip_ws s with
+  | c :: r =>
+      if c =? 123 then
+        match missp_map (S (length r)) true r [] with
+        | Some (m, rest) => match skip_ws rest with [] => Some m | _ => None end
+        | None => None
+        end
+      else None
+  | [] => None
+  end.
+Local Close Scope N_scope.
+
+Definition missp_of_bytes (b : list byte) : option miss :=
+  match utf8_decode b with Some s => missp_of_text s | None => None end.
+
 (** * the table of preprocessing stages *)
 Inductive stage :=
 | SJson (p : part)
 | SSpell (p : part) (prob : f64w) (fd : bool) (m : smode)
-| SChat (p : part) (t : chat_template).
+| SChat (p : part) (t : chat_template)
+| SBroken.       (* a spelling stage whose misspellings file does not parse: the constructor panics *)
 
 Definition run_stage (s : stage) (x : item) (i : info) : res (item * info) :=
   match s with
   | SJson p => apply_part p (fun s _ => json_decode s) x i
   | SSpell p prob fd m => apply_part p (fun s i => spell_x prob fd m (i_seed i) s) x i
   | SChat p t => apply_part p (fun s _ => chat_decode t s) x i
+  | SBroken => RPanic 13
   end.
 
 (** the meaning of [COpaque id]: entry [id] of the table (no entry: the stage stays unmodelled) *)
@@ -409,6 +504,7 @@ Definition opq_tab (st : list stage) (id : nat) (x : item) (i : info) : res (ite
 Definition stage_ok (s : stage) : bool :=
   match s with
   | SSpell _ prob _ m => spell_ctor_ok prob m
+  | SBroken => false
   | _ => true
   end.
 
@@ -568,13 +664,17 @@ Definition qp_refs_ok (n : nat) (q : qpcfg) : bool :=
 (** * val glue *)
 Definition v_items (v : val) : list C15_Tables.item := v_list C15_Spell.v_item v.
 
-(** smode = (0 pc temp chars?) | (1 missp) | (2 art pc temp chars? missp);  chars? = () | (((key freq weight) ..)) *)
-Definition v_smode (v : val) : smode :=
+(** smode = (0 pc temp chars?) | (1 missp) | (2 art pc temp chars? missp) | (3 bytes) | (4 art pc temp chars? bytes);
+    chars? = () | (((key freq weight) ..)); in 3 / 4 the misspellings file is given as its BYTES; [None]: it does not parse *)
+Definition v_smode (v : val) : option smode :=
   match v_z (v_nth 0 v) with
-  | 0%Z => MArtificial (v_f64w (v_nth 1 v)) (v_f64w (v_nth 2 v)) (v_opt v_items (v_nth 3 v))
-  | 1%Z => MRealistic (v_miss (v_nth 1 v))
-  | _ => MMixed (v_f64w (v_nth 1 v)) (v_f64w (v_nth 2 v)) (v_f64w (v_nth 3 v)) (v_opt v_items (v_nth 4 v))
-                (v_miss (v_nth 5 v))
+  | 0%Z => Some (MArtificial (v_f64w (v_nth 1 v)) (v_f64w (v_nth 2 v)) (v_opt v_items (v_nth 3 v)))
+  | 1%Z => Some (MRealistic (v_miss (v_nth 1 v)))
+  | 2%Z => Some (MMixed (v_f64w (v_nth 1 v)) (v_f64w (v_nth 2 v)) (v_f64w (v_nth 3 v)) (v_opt v_items (v_nth 4 v))
+                        (v_miss (v_nth 5 v)))
+  | 3%Z => option_map MRealistic (missp_of_bytes (v_list v_n (v_nth 1 v)))
+  | _ => option_map (MMixed (v_f64w (v_nth 1 v)) (v_f64w (v_nth 2 v)) (v_f64w (v_nth 3 v)) (v_opt v_items (v_nth 4 v)))
+                    (missp_of_bytes (v_list v_n (v_nth 5 v)))
   end.
 
 Definition v_template (v : val) : chat_template :=
@@ -586,7 +686,10 @@ Definition v_template (v : val) : chat_template :=
 Definition v_stage (v : val) : stage :=
   match v_z (v_nth 0 v) with
   | 0%Z => SJson (v_part (v_nth 1 v))
-  | 1%Z => SSpell (v_part (v_nth 1 v)) (v_f64w (v_nth 2 v)) (v_bool (v_nth 3 v)) (v_smode (v_nth 4 v))
+  | 1%Z => match v_smode (v_nth 4 v) with
+           | Some m => SSpell (v_part (v_nth 1 v)) (v_f64w (v_nth 2 v)) (v_bool (v_nth 3 v)) m
+           | None => SBroken
+           end
   | _ => SChat (v_part (v_nth 1 v)) (v_template (v_nth 2 v))
   end.
 
